@@ -18,7 +18,7 @@ if [ "$patch" != "none" ]; then
   git -C /tmp/eval/repo apply "$patch" || { echo "patch does not apply"; exit 2; }
 fi
 for c in "$@"; do
-  out=$(cd /tmp/eval/verif && VERIF_SEED=${VERIF_SEED:-7} ./check $c --tier quick 2>&1)
+  out=$(cd /tmp/eval/verif && VERIF_SEED=${VERIF_SEED:-7} ./check $c --tier ${TIER:-quick} 2>&1)
   rc=$?
   echo "== $c exit=$rc"
   echo "$out" | grep -E "^VIOLATION|^violation|^KNOWN|quick:|floor|BUILD|^error" | cut -c1-600 | head -8
